@@ -15,8 +15,11 @@ from concurrent.futures import ProcessPoolExecutor
 import multiprocessing as mp
 
 ROOT = os.path.dirname(os.path.dirname(os.path.abspath(__file__)))
-EVIDENCE_DIR = os.path.join(ROOT, "evidence")
-REPLAY_DIR = os.path.join(ROOT, "replays")
+# VERIF_OUT redirects evidence and replay files (used by tools/try_seeded.py --worktree so that
+# evaluating a seeded change never overwrites the evidence of the unchanged tree)
+_OUT = os.environ.get("VERIF_OUT") or ROOT
+EVIDENCE_DIR = os.path.join(_OUT, "evidence")
+REPLAY_DIR = os.path.join(_OUT, "replays")
 KNOWN_FINDINGS = os.path.join(ROOT, "known_findings.json")
 
 NCPU = min(16, os.cpu_count() or 1)
